@@ -243,36 +243,151 @@ def describe(case, obs):
 
 
 # ------------------------------------------------------------------ subset of a loaded object
+def _cell(i, j):
+    """every cell of the loaded matrix is unique, so a returned cell identifies the (sample, variant) it was taken from"""
+    return [i + 1, j + 1, (i + j) % 2]
+
+
 def gen_subset(rng, tier):
-    for _ in range(150 if tier == "quick" else 3000):
+    for _ in range(200 if tier == "quick" else 6000):
         c = gtio.gen_content(rng, maxs=4, maxv=5, min_v=1)
-        c["rs"] = rng.choice([None, rng.sample(c["samples"] + ["zz"], rng.randint(1, len(c["samples"]) + 1))])
-        c["cs"] = rng.choice([None, rng.sample([v["id"] for v in c["variants"]] + ["nosuch"], rng.randint(1, len(c["variants"]) + 1))])
+        ns, nv = len(c["samples"]), len(c["variants"])
+        c["data"] = [[_cell(i, j) for j in range(nv)] for i in range(ns)]
+        c["cls"] = rng.choice(["Genotypes", "GenotypesVCF", "GenotypesPLINK"])
+        ids = [v["id"] for v in c["variants"]]
+
+        def pick(names, unknown):
+            r = rng.random()
+            if r < 0.3:
+                return None
+            if r < 0.55:
+                return rng.sample(names, len(names))  # a pure re-ordering: everything kept
+            return rng.sample(names + [unknown], rng.randint(1, len(names) + 1))
+
+        ops = []
+        cur_s, cur_v = list(c["samples"]), list(ids)
+        for _ in range(rng.randint(1, 5)):
+            if rng.random() < 0.15:
+                ops.append({"k": "index", "s": rng.random() < 0.7, "v": rng.random() < 0.7})
+                continue
+            op = {"k": "subset", "rs": pick(cur_s, "zz") if cur_s else None, "cs": pick(cur_v, "nosuch") if cur_v else None, "inplace": rng.random() < 0.6}
+            if op["inplace"]:
+                if op["rs"] is not None:
+                    cur_s = [x for x in op["rs"] if x in cur_s]
+                if op["cs"] is not None:
+                    cur_v = [x for x in op["cs"] if x in cur_v]
+            ops.append(op)
+        c["ops"] = ops
         yield c
 
 
+def _snap(g):
+    r = gtio.snapshot(g)
+    return {"samples": r["samples"], "variants": [v["id"] for v in r["variants"]], "data": r["data"], "records": r["variants"]}
+
+
 def impl_subset(case):
-    g = gtio.make_obj("GenotypesVCF", "x.vcf", case)
-    r = g.subset(samples=None if case["rs"] is None else tuple(case["rs"]), variants=None if case["cs"] is None else tuple(case["cs"]))
-    return gtio.snapshot(r)
+    g = gtio.make_obj(case["cls"], "x.pgen" if case["cls"] == "GenotypesPLINK" else "x.vcf", case)
+    outs = []
+    for op in case["ops"]:
+        if op["k"] == "index":
+            g.index(samples=op["s"], variants=op["v"])
+            outs.append(None)
+            continue
+        r = g.subset(samples=None if op["rs"] is None else tuple(op["rs"]), variants=None if op["cs"] is None else tuple(op["cs"]), inplace=op["inplace"])
+        if op["inplace"]:
+            if r is not None:
+                return {"error": "inplace_returned_object"}
+            outs.append(_snap(g))
+        else:
+            outs.append(_snap(r))
+    return {"outs": outs, "final": _snap(g)}
+
+
+def model_req_subset(case):
+    nv = len(case["variants"])
+    return {"op": "subsetRun", "samples": case["samples"], "variants": [v["id"] for v in case["variants"]], "data": [[i * 100 + j for j in range(nv)] for i in range(len(case["samples"]))], "ops": case["ops"]}
+
+
+def model_obs_subset(case, resp):
+    recs = {v["id"]: v for v in case["variants"]}
+
+    def conv(c):
+        if c is None:
+            return None
+        return {"samples": c["samples"], "variants": c["variants"], "data": [[_cell(x // 100, x % 100) for x in row] for row in c["data"]]}
+
+    return {"outs": [conv(c) for c in resp["outs"]], "final": conv(resp["final"])}
+
+
+def equal_subset(a, b):
+    if "error" in a:
+        return False
+    strip = lambda c: None if c is None else {k: c[k] for k in ("samples", "variants", "data")}
+    fix = lambda c: c if c is None or c["samples"] and c["variants"] else {**c, "data": [[] for _ in c["samples"]]}
+    return C.canon([fix(strip(x)) for x in a["outs"]] + [fix(strip(a["final"]))]) == C.canon([fix(x) for x in b["outs"]] + [fix(b["final"])])
 
 
 def oracle_subset(case, obs):
+    """requested ∩ held, in the requested order, every cell still the cell of that (sample, variant) – from the property text"""
     if "error" in obs:
         return f"subset raised {obs}"
-    rows = [case["samples"].index(s) for s in (case["rs"] or case["samples"]) if s in case["samples"]]
-    ids = [v["id"] for v in case["variants"]]
-    cols = [ids.index(i) for i in (case["cs"] or ids) if i in ids]
-    want = {"samples": [case["samples"][i] for i in rows], "variants": [case["variants"][j] for j in cols], "data": [[case["data"][i][j] for j in cols] for i in rows]}
-    if C.canon(obs) != C.canon(want):
-        return f"subset(samples={case['rs']}, variants={case['cs']}) returned {obs}, expected the requested samples/variants in the requested order: {want}"
+    srow = {s: i for i, s in enumerate(case["samples"])}
+    vcol = {v["id"]: j for j, v in enumerate(case["variants"])}
+    rec = {v["id"]: v for v in case["variants"]}
+    cur_s, cur_v = list(case["samples"]), [v["id"] for v in case["variants"]]
+    for k, (op, out) in enumerate(zip(case["ops"], obs["outs"])):
+        if op["k"] == "index":
+            continue
+        ws = cur_s if op["rs"] is None else [x for x in op["rs"] if x in cur_s]
+        wv = cur_v if op["cs"] is None else [x for x in op["cs"] if x in cur_v]
+        if out["samples"] != ws:
+            return f"op {k} {op}: samples {out['samples']}, requested-and-held in requested order: {ws}"
+        if out["variants"] != wv:
+            return f"op {k} {op}: variants {out['variants']}, requested-and-held in requested order: {wv}"
+        cls_has_alleles = case["cls"] != "Genotypes"
+        for v, r in zip(wv, out["records"]):
+            want = rec[v] if cls_has_alleles else {kk: vv for kk, vv in rec[v].items() if kk != "alleles"}
+            if r != want:
+                return f"op {k} {op}: variant record {r} under ID {v}, loaded record was {want}"
+        if ws and wv:
+            for a, s_ in enumerate(ws):
+                for b, v in enumerate(wv):
+                    if out["data"][a][b] != _cell(srow[s_], vcol[v]):
+                        return f"op {k} {op}: genotype of sample {s_} at {v} is {out['data'][a][b]}, the loaded object held {_cell(srow[s_], vcol[v])} there (rows/columns mislabelled)"
+        if op["inplace"]:
+            cur_s, cur_v = ws, wv
+    if obs["final"]["samples"] != cur_s or obs["final"]["variants"] != cur_v:
+        return f"after the sequence the object holds {obs['final']['samples']} x {obs['final']['variants']}, expected {cur_s} x {cur_v}"
     return None
+
+
+def describe_subset(case, obs):
+    tags = [f"class={case['cls']}", f"ops={len(case['ops'])}"]
+    cur_s, cur_v = list(case["samples"]), [v["id"] for v in case["variants"]]
+    seen_inplace_reorder = False
+    for op in case["ops"]:
+        if op["k"] != "subset":
+            tags.append("explicit-index")
+            continue
+        if seen_inplace_reorder:
+            tags.append("subset-after-inplace-reordering")
+        for ax, cur, unknown in (("rs", cur_s, "zz"), ("cs", cur_v, "nosuch")):
+            if op[ax] is not None:
+                if unknown in op[ax]:
+                    tags.append("unknown-name")
+                if sorted(op[ax]) == sorted(cur) and op[ax] != cur and op["inplace"]:
+                    seen_inplace_reorder = True
+        if op["inplace"]:
+            cur_s = cur_s if op["rs"] is None else [x for x in op["rs"] if x in cur_s]
+            cur_v = cur_v if op["cs"] is None else [x for x in op["cs"] if x in cur_v]
+    return sorted(set(tags))
 
 
 CHECK = Check(
     id="C08",
     title="Restricted reads equal full read + subset, for VCF and PGEN alike",
-    theorems=["C08.id_scan_eq_filter", "C08.read_restricted_eq_filter", "C08.empty_match", "C08.samples_in_file_order"],
+    theorems=["C08.id_scan_eq_filter", "C08.read_restricted_eq_filter", "C08.empty_match", "C08.samples_in_file_order", "C08.subset_sequences_refine_spec", "C08.subset_requested_order"],
     sections=[
         Section(
             name="restricted_reads",
@@ -291,12 +406,16 @@ CHECK = Check(
         ),
         Section(
             name="subset_loaded",
-            theorems=[],
+            theorems=["C08.subset_sequences_refine_spec", "C08.subset_requested_order"],
             gen=gen_subset,
             impl=impl_subset,
+            model_req=model_req_subset,
+            model_obs=model_obs_subset,
+            equal=equal_subset,
             oracle=oracle_subset,
-            nontrivial=lambda c, o: C.jdump(c),
-            rule="Genotypes.subset on loaded objects: requested samples / variants in the requested order, unknown IDs dropped",
+            describe=describe_subset,
+            nontrivial=lambda c, o: C.jdump([c["samples"], [v["id"] for v in c["variants"]], c["ops"]]),
+            rule="sequences of 1-5 index() / subset(samples, variants, inplace) calls on loaded Genotypes / GenotypesVCF / GenotypesPLINK objects whose every cell is unique: requests are None, pure re-orderings of everything held, or random selections incl. unknown names, in place or not; after every call the returned (or altered) object and finally the object itself are compared with the Lean cache machine and with requested-and-held-in-requested-order computed from the loaded content, cell by cell",
         ),
     ],
     known_predicates={"region_straddles_multibase_ref": known_straddle},
